@@ -2373,6 +2373,10 @@ class RlWriter:
             w_min, h_min = element.wrap(0, pdfstyles.PAGE_HEIGHT)
         except TypeError:  # issue with certain cjk text
             return 0, 0
+        if not w_min and isinstance(element, Paragraph):
+            # wrap(0, ...) just echoes the 0: without the width of the longest word a short
+            # cell next to a long one is squeezed until its words break letter by letter
+            w_min = element.minWidth()
         min_width = w_min + self._correct_width(element)
         min_width += 2 * pdfstyles.CELL_PADDING
         return min_width, h_min
